@@ -350,15 +350,29 @@ fn power_iteration(
         return Err(DecomposeError::EmptyMatrix);
     }
 
-    // Initialize v randomly (deterministic seed for reproducibility)
-    let mut v: Vec<f32> = (0..a.cols)
-        .map(|i| {
-            #[allow(clippy::cast_precision_loss)]
-            let val = ((i * 7 + 3) % 13) as f32 / 13.0 - 0.5;
-            val
+    // Start from the largest-norm row of A: then ||A v|| >= ||row|| >= ||A||_F / sqrt(rows), so a
+    // non-zero matrix can never be mistaken for a zero one. (A fixed pattern can be exactly
+    // orthogonal to the dominant right singular vector, e.g. [-1, 1] for a constant 2x2 matrix.)
+    let row_norm_sq = |i: usize| (0..a.cols).map(|j| a.get(i, j) * a.get(i, j)).sum::<f32>();
+    let best_row = (0..a.rows)
+        .max_by(|&i, &j| {
+            row_norm_sq(i)
+                .partial_cmp(&row_norm_sq(j))
+                .unwrap_or(std::cmp::Ordering::Equal)
         })
-        .collect();
-    normalize(&mut v);
+        .unwrap_or(0);
+    let mut v: Vec<f32> = (0..a.cols).map(|j| a.get(best_row, j)).collect();
+    if normalize(&mut v) <= 1e-10 {
+        // A is (numerically) zero: fall back to the deterministic pattern
+        v = (0..a.cols)
+            .map(|i| {
+                #[allow(clippy::cast_precision_loss)]
+                let val = ((i * 7 + 3) % 13) as f32 / 13.0 - 0.5;
+                val
+            })
+            .collect();
+        normalize(&mut v);
+    }
 
     let mut u = vec![0.0f32; a.rows];
     let mut sigma = 0.0f32;
